@@ -185,7 +185,40 @@ def answerHash (h0 : String) (curs : List String) : String :=
   s!"file:{showHash (docHash (toDoc Codec.id m))};file2:{showHash (docHash (toDoc Codec.id R))};" ++
   s!"hash3:{showHash R2.hash};hm:{"".intercalate hm}"
 
+/-- `c03 xd (none | k key*k) step*`: the user's extra_data (keys in dict order) and a history of
+    `SAVE | ADD key | DEL key | LOAD`; ADD = `d[key] = …` in place (an existing key keeps its position), LOAD = continue
+    with `from_file` of the last save.  Answer: the top-level keys of every saved document, `/`-separated per save. -/
+partial def runXd (m : Model Nat) (last : Option (Model Nat)) : List String → List String → Option (List String)
+  | [], acc => some acc
+  | "SAVE" :: r, acc =>
+    let keys := " ".intercalate ((docKeys (toDoc Codec.id m)).map encText)
+    runXd (afterSave emb0 m) (some (reload Codec.id emb0 [] [] m)) r (acc ++ [keys])
+  | "ADD" :: k :: r, acc => do
+    let k ← decStr? k
+    runXd { m with extra := some (upd k 0 m.extraList) } last r acc
+  | "DEL" :: k :: r, acc => do
+    let k ← decStr? k
+    runXd { m with extra := m.extra.map fun l => l.filter fun kv => kv.1 != k } last r acc
+  | "LOAD" :: r, acc => do
+    let l ← last
+    runXd l last r acc
+  | _, _ => none
+
+def answerXd (extra : Option (List (List Char))) (steps : List String) : String :=
+  let m : Model Nat :=
+    { cells := [], cycles := none, hash := none, filename := [], extra := extra.map fun ks => ks.map fun k => (k, 0) }
+  match runXd m none steps [] with
+  | none => "!bad-xd"
+  | some acc => "/".intercalate acc
+
 def handle : List String → String
+  | "c03" :: "xd" :: "none" :: steps => answerXd none steps
+  | "c03" :: "xd" :: k :: rest =>
+    match k.toNat? with
+    | none => "!bad-xd"
+    | some k =>
+      let keys := (rest.take k).filterMap decStr?
+      if keys.length = k then answerXd (some keys) (rest.drop k) else "!bad-xd"
   | "c03" :: "pk" :: ts => answerPk ts
   | "c03" :: "hash" :: h0 :: curs => answerHash h0 curs
   | "c03" :: n :: rest =>
